@@ -303,3 +303,38 @@ Example C01_nonvacuous :
   map p_id (live_out k1) = [4; 5; 6]%Z.
 Proof. exact fanout_nonvacuous. Qed.
 Print Assumptions C01_nonvacuous.
+
+(* ---- 7. the oracle of the check -------------------------------------------------------------
+   [ok_C01] (Model/LtsOracle.v) is the boolean function that bin/check applies to
+   (case, observation of the real media.Stream after the case's schedule).  When the published
+   ids are pairwise distinct it demands of every consumer: every delivered packet byte-identical
+   to the published one; no id delivered twice (C01_out_at_most_once); every delivered id was
+   published (C01_unmodified and the replay below); and the delivered ids split into a replayed
+   part and a live part such that the live part is a subsequence of the published ids (C01_order)
+   and every replayed id was published before every live id (C01_prefill_before_registration,
+   C01_order_window).  The hypothesis of C01_out_at_most_once on the join replay is discharged
+   for the RTP pack cache: a replay only holds published packets and never repeats an id. *)
+From V Require Import LtsOracle LtsOracleProofs.
+
+Theorem C01_rcache_replay_no_repeat : forall c : lcase, l_var c = fixed -> forall i,
+  (forall x, In x (c_prefill (s_cs (lrun c) i)) -> In x (l_pkts c)) /\
+  (NoDup (map p_id (l_pkts c)) -> NoDup (map p_id (c_prefill (s_cs (lrun c) i)))).
+Proof.
+  exact (fun c H i => conj (proj1 (prefill_facts c H i)) (proj1 (proj2 (prefill_facts c H i)))).
+Qed.
+Print Assumptions C01_rcache_replay_no_repeat.
+
+Theorem C01_model_passes : forall c : lcase,
+  l_var c = fixed -> ok_C01 c (obs_of_state (l_n c) (lrun c)) = true.
+Proof. exact LtsOracleProofs.C01_model_passes. Qed.
+Print Assumptions C01_model_passes.
+
+Theorem C01_oracle_decodes_the_wire : forall n (s : lstate),
+  dec_obs (enc_state n s) = obs_of_state n s.
+Proof. exact dec_enc_obs. Qed.
+Print Assumptions C01_oracle_decodes_the_wire.
+
+Theorem C01_model_passes_on_the_wire : forall v,
+  l_var (dec_lcase v) = fixed -> ok_C01 (dec_lcase v) (dec_obs (lts_run v)) = true.
+Proof. exact (fun v H => proj1 (proj2 (wire_model_passes v H))). Qed.
+Print Assumptions C01_model_passes_on_the_wire.
